@@ -8,9 +8,59 @@ let s = str_of_raw
 let expected payload =
   raw_of_str (stored_source (s "sender@x.org") (s "client.example") (s "127.0.0.1") (s "inbucket") (s "box") payload)
 
+let expected_for mb payload =
+  raw_of_str (stored_source (s "sender@x.org") (s "client.example") (s "127.0.0.1") (s "inbucket") (s mb) payload)
+
+(* multi <store> <rcpt mailboxes> <lines>: every RCPT yields one delivery; every copy is the trace headers (with its
+   own mailbox) followed by the same payload *)
+let handle_multi rcpts ls outs =
+  let ls = if ls = "-" then [] else List.map str_of_field (String.split_on_char ',' ls) in
+  let payload = joined_lf ls in
+  let rc = String.split_on_char ',' rcpts in
+  let order = List.fold_left (fun acc mb -> if List.mem mb acc then acc else acc @ [mb]) [] rc in
+  let n = List.length rc in
+  let replies = String.concat "," (["250"; "250"] @ List.init n (fun _ -> "250") @ ["354"]) in
+  match outs with
+  | [_; copies; status] ->
+      let hdr = List.hd (String.split_on_char ':' status) in
+      let st = String.concat ":" (List.tl (String.split_on_char ':' status)) in
+      if hdr <> "1" then Mlutil.print_model [replies ^ ",451,221"; "-"; hdr ^ ":ok"] "ok"
+      else begin
+        let want = List.concat_map (fun mb ->
+          let k = List.length (List.filter (fun x -> x = mb) rc) in
+          List.init k (fun i ->
+            let src = expected_for mb payload in
+            let len = string_of_int (String.length src) in
+            String.concat ":" [Printf.sprintf "%s.%d" mb (i + 1); Mlutil.hex src; len; "="; "="; "="; len; len])) order in
+        let model_copies = if want = [] then "-" else String.concat "," want in
+        let got = if copies = "-" then [] else String.split_on_char ',' copies in
+        let v = ref [] in
+        let add x = if not (List.mem x !v) then v := !v @ [x] in
+        if List.length got <> List.length want then add "copies-stored-differ-from-recipients-accepted";
+        List.iter2 (fun g w ->
+          match String.split_on_char ':' g, String.split_on_char ':' w with
+          | [gn; gsrc; gsize; grest; gui; gpop; grs; gps], [wn; wsrc; _; _; _; _; _; _] ->
+              if gn <> wn then add "copies-stored-differ-from-recipients-accepted";
+              if gsrc <> wsrc then add "stored-source-differs-from-transmitted-bytes";
+              if grest <> "=" then add "rest-source-differs-from-store";
+              if gui <> "=" then add "webui-source-differs-from-store";
+              if gpop <> "=" then add "pop3-retr-differs-from-store";
+              let len = if gsrc = "-" then 0 else String.length gsrc / 2 in
+              if gsize <> string_of_int len || grs <> gsize || gps <> gsize then add "reported-size-differs-from-source-length"
+          | _ -> add "read-interface-error")
+          (if List.length got = List.length want then got else []) (if List.length got = List.length want then want else []);
+        if st <> "ok" then add "read-interface-error";
+        let verdict = if !v = [] then "ok" else "fail:" ^ String.concat ";" !v in
+        Mlutil.print_model [replies ^ ",250,221"; model_copies; "1:ok"] verdict
+      end
+  | _ -> Mlutil.print_model ["NO-OBSERVATION"] "fail:no-observation"
+
 let () =
   Mlutil.iter_lines (fun line ->
     let (kind, ins, outs) = Mlutil.split_case line in
+    match kind, ins with
+    | "multi", [_; rcpts; ls] -> handle_multi rcpts ls outs
+    | _ ->
     let wire_spec =
       match kind, ins with
       | "lines", [_; ls] ->
